@@ -243,3 +243,23 @@ func Crossbar(n int, rsize uint8, perm []int) NetSpec {
 	}
 	return ns
 }
+
+// RandomNetIO is RandomNet plus bonds that involve no processor port on one or both ends: an
+// external input wired straight to a fresh external output (pass-through), and an external input
+// that already feeds a processor tapped to a fresh external output.
+func RandomNetIO(rng *rand.Rand, maxP int, pool []string) NetSpec {
+	n := RandomNet(rng, maxP, pool)
+	n.Family = "random-dag-io"
+	if rng.IntN(2) == 0 {
+		// pass-through on a fresh input
+		n.Bonds = append(n.Bonds, [2]string{fmt.Sprintf("o%d", n.Outputs), fmt.Sprintf("i%d", n.Inputs)})
+		n.Inputs++
+		n.Outputs++
+	}
+	if rng.IntN(3) == 0 && n.Inputs > 0 {
+		// tap an input (whoever else reads it)
+		n.Bonds = append(n.Bonds, [2]string{fmt.Sprintf("o%d", n.Outputs), fmt.Sprintf("i%d", rng.IntN(n.Inputs))})
+		n.Outputs++
+	}
+	return n
+}
